@@ -16,6 +16,12 @@
 //
 // bothways_test.go generates the same rounds with either host as the opener and without any
 // harness-side peerstore write (knowledge produced by the library alone).
+//
+// The connection kind is generated: direct, limited (a direct pipe flagged Limited), or limited
+// through a real circuit-v2 relay host that is the only route between the two hosts
+// (relay_test.go). Where the knowledge is the library's own, a protocol the responder has
+// stopped announcing must be gone from it at quiescence (withdrawalDelivered in runScenario;
+// TestWithdrawnSmall in bothways_test.go enumerates that dimension).
 package c07
 
 import (
@@ -46,7 +52,7 @@ import (
 
 func TestMain(m *testing.M) {
 	stats.Describe("exploration",
-		"Each case builds two real hosts (BasicHost/BlankHost pairs, direct or limited connection) and runs 1..4 rounds; a round applies 0..3 "+
+		"Each case builds two real hosts (BasicHost/BlankHost pairs; direct connection, limited connection, or limited connection through a real relay host) and runs 1..4 rounds; a round applies 0..3 "+
 			"SetStreamHandler / SetStreamHandlerMatch (prefix, path, semver, alias matchers; overlapping) / RemoveStreamHandler calls on the listener, "+
 			"puts the dialer's peerstore knowledge about the listener into a generated state (kept from identify, none, accurate, stale, over-optimistic, random) "+
 			"and performs 1..4 concurrent NewStream calls with ordered request lists of 1..3 IDs from a 10-ID universe with shared prefixes. "+
@@ -77,7 +83,17 @@ func TestMain(m *testing.M) {
 			"is tolerated only if the responder accepted or announced the bound protocol at some time or no requested protocol is common; and no application handler may run on the opener's own host. "+
 			"There a case is also non-trivial if some request names an ID the responder itself had opened earlier (labels both-ways:...; the longest one counts the cases in which such an ID, never "+
 			"served by the responder, precedes a common protocol in the request of a BasicHost opener). TestBothDirectionsSmall: all pairs of exact handler sets over two IDs x first opener x "+
-			"ordered requests of both directions x push / no push in between x 3 host pairings, history P->Q, Q->P, P->Q.",
+			"ordered requests of both directions x push / no push in between x 3 host pairings, history P->Q, Q->P, P->Q. "+
+			"Connection kind (labels conn:...): direct; limited = a direct pipe whose Stat().Limited is set; limited = a real circuit-v2 connection through a third BasicHost running the relay service "+
+			"(real circuit client transport and reservation; the connection's listener listens nowhere else, so the relay is the only route; every open passes WithAllowLimitedConn). Drawn per case (nominally 6/9, 2/9, 1/9), "+
+			"and taken by fixed fractions of the enumerated tests. "+
+			"Withdrawn protocols: requests may start (1/3 of the draws where possible; both-directions rounds and knowledge mode keep) with an ID the responder announced or accepted earlier and neither announces nor accepts now, "+
+			"followed by one it accepts. Extra oracle rule (withdrawalDelivered), only while the harness has written no knowledge, both hosts are BasicHosts and the batch started at quiescence: a failure on first use "+
+			"(or no handler reached) on such an ID is tolerated only if the opener negotiated it successfully since the responder last changed the set it announces; otherwise, with a common protocol requested, the open must reach "+
+			"that protocol's handler - stale-after-removal is tolerated while the announcement is in flight, not after it was delivered, on limited connections as on direct ones. "+
+			"Labels withdrawn-id-listed-before-common-protocol[:must-be-refreshed[:conn:...]] count the cases with such an open (must-be-refreshed = the extra rule applies to it). "+
+			"TestWithdrawnSmall: 3 connection kinds x which host serves x withdrawn registration (exact | matcher the opener negotiated through) x replaced or not x 7 first operations x pushes settled / in flight, "+
+			"history open [X]; withdraw X; open [X,Y]; (quiescence) open [X,Y].",
 		"go-multistream (select / lazy select / muxer) is a trusted dependency, exercised but not modelled",
 		"handler changes are applied between batches of opens, never concurrently with an open, so 'installed when the open started' is well defined; "+
 			"the batch starts at quiescence (synctest.Wait), except in the both-directions rounds marked no_settle, where only the identify pushes caused by the changes are still in flight "+
@@ -86,6 +102,9 @@ func TestMain(m *testing.M) {
 		"application payload starts with a 0x00 byte, which is never a valid multistream token: after a refused lazy negotiation the listener cannot "+
 			"mistake payload for a further protocol proposal",
 		"the in-memory transport replaces only the socket; security, muxer, swarm, hosts, identify and resource manager are the real ones",
+		"relayed connections: relay limits are set far above what a case uses (30 min, 4 MiB), so a limit that bites is never the reason of an outcome; what 'limited' means to the hosts (Stat().Limited, opt-in per open) is unchanged",
+		"withdrawalDelivered relies on the documented identify behaviour that a BasicHost pushes every change of its announced protocol set to its connected peers and that the receiver replaces its knowledge with it; "+
+			"quiescence (synctest.Wait) is what 'delivered' means",
 		"failure on first use is accepted as: a Write (also an empty one), CloseWrite or Close may be accepted locally (lazy select does not wait for the answer), "+
 			"the first Read (also one into an empty buffer) must return an error and no data; for a stream closed at once only 'no application handler runs' is demanded",
 		"not generated as first operations: Reset, CloseRead, deadline-only use; a stream the dialer resets may or may not reach a handler, the statement is silent there",
@@ -217,12 +236,16 @@ type round struct {
 // Dialer / Listener are the kinds of the host that dials / listens for the one connection
 // of the case; streams are opened over it by the host each round names.
 type scenario struct {
-	Dialer   string  `json:"dialer"`
-	Listener string  `json:"listener"`
-	Limited  bool    `json:"limited"`
-	Init     []lop   `json:"init"`
-	InitD    []lop   `json:"init_dialer,omitempty"` // handlers of the connection's dialer (it is a listener for streams too)
-	Rounds   []round `json:"rounds"`
+	Dialer   string `json:"dialer"`
+	Listener string `json:"listener"`
+	Limited  bool   `json:"limited"`
+	// Relay (only with Limited): the limited connection is a real circuit-v2 connection through
+	// a third host and the only route between the two hosts (relay_test.go); otherwise a limited
+	// connection is a direct pipe that reports Stat().Limited.
+	Relay  bool    `json:"relay,omitempty"`
+	Init   []lop   `json:"init"`
+	InitD  []lop   `json:"init_dialer,omitempty"` // handlers of the connection's dialer (it is a listener for streams too)
+	Rounds []round `json:"rounds"`
 	// Lists: the request lists the application keeps and reuses (the usual package level
 	// `var protocols = []protocol.ID{...}`): full content of each backing array. An open naming
 	// list k requests a prefix of it; the entries behind that prefix are spare capacity as far
@@ -311,6 +334,39 @@ func (m *lmodel) acceptedSet() []protocol.ID {
 	var out []protocol.ID
 	for _, id := range reqUniverse {
 		if m.accepted(id) {
+			out = append(out, id)
+		}
+	}
+	return out
+}
+
+// namedNow: id is the name of an installed registration, i.e. the host announces it at present
+// (identify and identify push carry the names of the registrations, Mux().Protocols()).
+func (m *lmodel) namedNow(id protocol.ID) bool {
+	for _, r := range m.installed {
+		if r.name == id {
+			return true
+		}
+	}
+	return false
+}
+
+// announced is the set of names the host announces at present, as a comparable key.
+func (m *lmodel) announced() string {
+	var s []string
+	for _, r := range m.installed {
+		s = append(s, string(r.name))
+	}
+	sort.Strings(s)
+	return strings.Join(s, "\x00")
+}
+
+// withdrawn: IDs the host announced or accepted at some time and neither announces nor accepts
+// now (what a peer that has not heard of the change still believes: "stale after handler removal").
+func (m *lmodel) withdrawn() []protocol.ID {
+	var out []protocol.ID
+	for _, id := range reqUniverse {
+		if (m.ever[id] || m.named[id]) && !m.accepted(id) && !m.namedNow(id) {
 			out = append(out, id)
 		}
 	}
@@ -417,7 +473,7 @@ func contains(l []protocol.ID, id protocol.ID) bool {
 	return false
 }
 
-func drawRequest(rt *rapid.T, m *lmodel, know []protocol.ID) []protocol.ID {
+func drawRequest(rt *rapid.T, m *lmodel, know []protocol.ID, knowMode string) []protocol.ID {
 	acc := m.acceptedSet()
 	var bad []protocol.ID // believed supported, not accepted
 	for _, id := range know {
@@ -427,6 +483,10 @@ func drawRequest(rt *rapid.T, m *lmodel, know []protocol.ID) []protocol.ID {
 	}
 	n := rapid.IntRange(1, 3).Draw(rt, "nreq")
 	var req []protocol.ID
+	if knowMode == "keep" { // knowledge as the library left it: what the listener withdrew should be gone from it
+		req = drawWithdrawnFirst(rt, m)
+		n = max(n, len(req))
+	}
 	for len(req) < n {
 		var id protocol.ID
 		switch c := rapid.IntRange(0, 5).Draw(rt, "reqclass"); {
@@ -510,6 +570,14 @@ func mix(x uint64) uint64 { // splitmix64 finaliser: a bijection, so nonces of o
 	return x ^ (x >> 31)
 }
 
+// drawConn draws the connection kind: direct (nominally 6/9), limited = a direct pipe flagged
+// Limited (2/9), limited = through a relay host, the only route between the two hosts (1/9;
+// rapid prefers small values, the label histogram shows the real shares).
+func drawConn(rt *rapid.T, sc *scenario) {
+	c := rapid.IntRange(0, 8).Draw(rt, "conn")
+	sc.Limited, sc.Relay = c <= 2, c == 0
+}
+
 func drawScenario(rt *rapid.T) *scenario {
 	sc := &scenario{Key: rapid.Uint64().Draw(rt, "key")}
 	switch p := rapid.IntRange(0, 9).Draw(rt, "pair"); {
@@ -522,7 +590,7 @@ func drawScenario(rt *rapid.T) *scenario {
 	default:
 		sc.Dialer, sc.Listener = "blank", "basic"
 	}
-	sc.Limited = rapid.IntRange(0, 3).Draw(rt, "limited") == 0
+	drawConn(rt, sc)
 	m := newModel()
 	for i, n := 0, rapid.IntRange(0, 4).Draw(rt, "ninit"); i < n; i++ {
 		op := drawOp(rt, m)
@@ -557,7 +625,7 @@ func drawScenario(rt *rapid.T) *scenario {
 		r.Know = drawKnowledge(rt, m, r.KnowMode)
 		for j, k := 0, rapid.IntRange(1, 4).Draw(rt, "nopens"); j < k; j++ {
 			nonce++
-			req, list, clip := pool.draw(rt, func() []protocol.ID { return drawRequest(rt, m, r.Know) })
+			req, list, clip := pool.draw(rt, func() []protocol.ID { return drawRequest(rt, m, r.Know, r.KnowMode) })
 			r.Opens = append(r.Opens, openSpec{Req: req, List: list, Clip: clip, Use: rapid.SampledFrom(useWeighted).Draw(rt, "use"), nonce: mix(sc.Key + uint64(nonce))})
 		}
 		sc.Rounds = append(sc.Rounds, r)
@@ -892,27 +960,33 @@ type side struct {
 	// bound: protocol IDs of the streams this host obtained from NewStream so far in the case
 	// (i.e. what the other host has seen this host open)
 	bound map[protocol.ID]bool
+	// learned: protocols this host negotiated successfully with the other host since the other
+	// host last changed the set of protocols it announces (cleared at every such change)
+	learned map[protocol.ID]bool
 }
 
 func runScenario(f failer, sc *scenario) *outcome {
 	oc := &outcome{labels: map[string]bool{}}
 	lab := func(s string) { oc.labels[s] = true }
-	w := newWorld(sc.Limited)
+	if sc.Relay && !sc.Limited {
+		f.Fatalf("harness: a relayed connection is a limited one")
+	}
+	w := newWorld(sc.Limited && !sc.Relay)
 	defer w.closePipes()
 	D, err := newNode(w, sc.Dialer, keys.Ed(71), "10.7.0.1", false)
 	if err != nil {
 		f.Fatalf("harness: dialer host: %v", err)
 	}
 	defer D.Close()
-	L, err := newNode(w, sc.Listener, keys.Ed(72), "10.7.0.2", true)
+	L, err := newNode(w, sc.Listener, keys.Ed(72), "10.7.0.2", !sc.Relay)
 	if err != nil {
 		f.Fatalf("harness: listener host: %v", err)
 	}
 	defer L.Close()
 
 	sides := [2]*side{
-		{n: D, kind: sc.Dialer, role: "conn-dialer", m: newModel(), hl: newHlog(), bound: map[protocol.ID]bool{}},
-		{n: L, kind: sc.Listener, role: "conn-listener", m: newModel(), hl: newHlog(), bound: map[protocol.ID]bool{}},
+		{n: D, kind: sc.Dialer, role: "conn-dialer", m: newModel(), hl: newHlog(), bound: map[protocol.ID]bool{}, learned: map[protocol.ID]bool{}},
+		{n: L, kind: sc.Listener, role: "conn-listener", m: newModel(), hl: newHlog(), bound: map[protocol.ID]bool{}, learned: map[protocol.ID]bool{}},
 	}
 	sideOf := func(op lop) *side {
 		if op.Host == "D" {
@@ -933,7 +1007,9 @@ func runScenario(f failer, sc *scenario) *outcome {
 	if sc.Limited {
 		baseCtx = network.WithAllowLimitedConn(baseCtx, "c07")
 	}
-	{
+	if sc.Relay {
+		defer connectThroughRelay(f, w, D, L, baseCtx)()
+	} else {
 		ctx, cancel := context.WithTimeout(baseCtx, time.Minute)
 		err := D.Connect(ctx, peer.AddrInfo{ID: L.ID(), Addrs: L.Addrs()})
 		cancel()
@@ -965,9 +1041,17 @@ func runScenario(f failer, sc *scenario) *outcome {
 	prevOpener := -1
 
 	for ri, r := range sc.Rounds {
+		announcedBefore := [2]string{sides[0].m.announced(), sides[1].m.announced()}
 		for _, op := range r.Ops {
 			t := sideOf(op)
 			applyOp(t.n, op, t.m.apply(op), t.hl)
+		}
+		for i, sd := range sides {
+			if sd.m.announced() != announcedBefore[i] {
+				// the host announces another set now: it tells every peer (identify push), and what the
+				// peer had concluded from earlier opens is replaced by the announcement
+				sides[1-i].learned = map[protocol.ID]bool{}
+			}
 		}
 		if ri > 0 && len(r.Ops) > 0 {
 			oc.nontrivial = true // handlers changed during the case
@@ -1090,6 +1174,26 @@ func runScenario(f failer, sc *scenario) *outcome {
 		libraryMadeItUp := func(P protocol.ID, shared bool) bool {
 			return !harnessWrote && shared && !m.ever[P] && !m.named[P]
 		}
+		// withdrawalDelivered: "stale after handler removal" is a state of the opener's knowledge
+		// that the statement tolerates, not one it lets last: it demands that an open for a list
+		// with a common protocol reaches that protocol's handler, over limited and direct
+		// connections alike. Between two BasicHosts a host that stops announcing P tells every
+		// connected peer so, and the announcement replaces what the peer believed. So once the
+		// system is quiescent after that change (every push delivered), and unless the opener has
+		// negotiated P successfully since (a matcher may still have accepted it), knowledge the
+		// library produced by itself no longer contains P: an optimistic choice of P is then not
+		// "from earlier knowledge" any more, it is knowledge the library failed to refresh.
+		// Not demanded: rounds whose pushes are still in flight (no_settle), knowledge written by
+		// the harness, a BlankHost on either side (neither sends nor consumes pushes), a protocol
+		// the responder still announces without accepting it, and a protocol whose acceptance
+		// ended without any change of the announced set (nothing is pushed then).
+		withdrawalDelivered := func(P protocol.ID, shared bool) bool {
+			return !harnessWrote && shared && O.kind == "basic" && R.kind == "basic" && !r.NoSettle &&
+				!m.accepted(P) && !m.namedNow(P) && (m.ever[P] || m.named[P]) && !O.learned[P]
+		}
+		const withdrawalMsg = "The responder announced or accepted %q earlier, has stopped announcing it, does not accept it, and the opener has not negotiated it since; the system was quiescent " +
+			"before this batch (every identify push delivered) and the harness wrote no protocol knowledge in this case, so the opener's belief is knowledge the library did not refresh after the removal was announced " +
+			"(connection limited=%v), not the tolerated state 'stale after handler removal'; the two sides do have a requested protocol in common, the open has to be bound to it and reach its handler"
 		// The request list is the caller's: NewStream receives it by value, and the next open of the
 		// history that passes the same object requests what the caller put there. Every backing
 		// array must hold after the call (and at quiescence after the batch) what it held before.
@@ -1174,6 +1278,26 @@ func runScenario(f failer, sc *scenario) *outcome {
 							}
 						}
 					}
+				}
+			}
+
+			// the withdrawn class: the request lists a protocol the responder has stopped announcing
+			// and accepting before one it serves. The ...:must-be-refreshed labels count the cases in
+			// which withdrawalDelivered applies to such an open (the open must reach the common protocol).
+			for k, id := range o.Req {
+				if m.accepted(id) || m.namedNow(id) || !(m.ever[id] || m.named[id]) {
+					continue
+				}
+				for _, later := range o.Req[k+1:] {
+					if !m.accepted(later) {
+						continue
+					}
+					lab("withdrawn-id-listed-before-common-protocol")
+					if withdrawalDelivered(id, true) {
+						lab("withdrawn-id-listed-before-common-protocol:must-be-refreshed")
+						lab("withdrawn-id-listed-before-common-protocol:must-be-refreshed:" + connLabel(sc))
+					}
+					break
 				}
 			}
 
@@ -1262,6 +1386,9 @@ func runScenario(f failer, sc *scenario) *outcome {
 						"but the responder never accepted and never announced %q, so no handler removal can have made that belief stale; the two sides do have a requested protocol in common, the open has to succeed on it",
 						ctxt(i)+" ("+o.use()+")", P, out.useErr, P, P)
 				}
+				if withdrawalDelivered(P, shared) {
+					f.Fatalf("%s: stream bound to %q failed on first use (%v). "+withdrawalMsg, ctxt(i)+" ("+o.use()+")", P, out.useErr, P, sc.Limited)
+				}
 				oc.nontrivial = true
 				if r.KnowMode == "keep" {
 					lab("lazy-refused:knowledge-from-identify-or-earlier-opens")
@@ -1288,6 +1415,9 @@ func runScenario(f failer, sc *scenario) *outcome {
 						f.Fatalf("%s: NewStream returned a stream bound to %q, which the responder does not accept, never accepted and never announced; the opener's belief was produced by the library itself "+
 							"(the harness wrote no protocol knowledge in this case) and the two sides do have a requested protocol in common: the open has to be bound to it and reach its handler", ctxt(i), P)
 					}
+					if withdrawalDelivered(P, shared) {
+						f.Fatalf("%s: NewStream returned a stream bound to %q, which the responder does not accept. "+withdrawalMsg, ctxt(i), P, P, sc.Limited)
+					}
 					oc.nontrivial = true
 					lab("lazy-refused:closed-before-use")
 					continue
@@ -1296,6 +1426,7 @@ func runScenario(f failer, sc *scenario) *outcome {
 					f.Fatalf("%s: closing a healthy stream bound to %q failed: %v", ctxt(i), P, out.closeErr)
 				}
 				closedOK = append(closedOK, i)
+				O.learned[P] = true
 				continue
 			}
 			// the round trip succeeded
@@ -1349,6 +1480,7 @@ func runScenario(f failer, sc *scenario) *outcome {
 			}
 			byInv[rep.Inv] = i
 			openD[P]++
+			O.learned[P] = true
 		}
 		lab(fmt.Sprintf("concurrent-opens:%d", len(r.Opens)))
 
@@ -1449,10 +1581,21 @@ func runScenario(f failer, sc *scenario) *outcome {
 			}
 		}
 	}
-	if w.dials != 1 {
-		f.Fatalf("harness: %d transport dials in one case, expected 1", w.dials)
+	// no host ever dialled behind the harness's back (relay: each of the two hosts dialled the relay, once)
+	if want := map[bool]int{false: 1, true: 2}[sc.Relay]; w.dials != want {
+		f.Fatalf("harness: %d transport dials in one case, expected %d", w.dials, want)
 	}
 	return oc
+}
+
+func connLabel(sc *scenario) string {
+	switch {
+	case sc.Relay:
+		return "conn:limited-through-relay"
+	case sc.Limited:
+		return "conn:limited-flagged-direct-pipe"
+	}
+	return "conn:direct"
 }
 
 func describeBatch(opens []openSpec, res []*openResult) string {
@@ -1495,11 +1638,7 @@ func TestNegotiation(t *testing.T) {
 		hx.Bubble(t, rt, func() {
 			oc = runScenario(rt, sc)
 		})
-		conn := "conn:direct"
-		if sc.Limited {
-			conn = "conn:limited"
-		}
-		stats.Case(name, sc.fingerprint(), oc.nontrivial, sortedLabels(oc.labels, "pair:"+sc.Dialer+"->"+sc.Listener, conn)...)
+		stats.Case(name, sc.fingerprint(), oc.nontrivial, sortedLabels(oc.labels, "pair:"+sc.Dialer+"->"+sc.Listener, connLabel(sc))...)
 		if stats.WantSample(name) {
 			stats.Sample(name, map[string]any{"scenario": sc, "trace": oc.trace})
 		}
@@ -1561,7 +1700,7 @@ func TestSmallExhaustive(t *testing.T) {
 						// the caller keeps ONE list object for the whole case (request + one further entry it
 						// never requests here) and passes it to every open: 2 or 14 opens, before and after the
 						// removal of the handlers, knowledge re-established or evolving in between
-						sc := &scenario{Dialer: pr[0], Listener: pr[1], Limited: idx%5 == 0, Init: cfg, Key: uint64(idx),
+						sc := &scenario{Dialer: pr[0], Listener: pr[1], Limited: idx%5 == 0, Relay: idx%15 == 0, Init: cfg, Key: uint64(idx),
 							Lists: [][]protocol.ID{append(append([]protocol.ID{}, req...), "/c/1.0.0")}}
 						var removes []lop
 						seen := map[protocol.ID]bool{}
@@ -1588,7 +1727,7 @@ func TestSmallExhaustive(t *testing.T) {
 						if oc == nil {
 							t.Fatalf("scenario %s failed", sc.fingerprint())
 						}
-						stats.CaseEnumerated(name, oc.nontrivial, sortedLabels(oc.labels, "pair:"+pr[0]+"->"+pr[1], fmt.Sprintf("config:%d", ci))...)
+						stats.CaseEnumerated(name, oc.nontrivial, sortedLabels(oc.labels, "pair:"+pr[0]+"->"+pr[1], connLabel(sc), fmt.Sprintf("config:%d", ci))...)
 						if stats.WantSample(name) {
 							stats.Sample(name, map[string]any{"scenario": sc, "trace": oc.trace})
 						}
